@@ -979,7 +979,7 @@ func (g *gen) faultAction(fx *fctx, kind string, scen int, depth int) []*Stmt {
 }
 
 // ---------- chains of functions ----------
-var bindKinds = []string{"localfunc", "localassign", "global", "globalstmt", "field", "fieldstmt", "method", "mm_index", "mm_add", "mm_call", "mm_concat", "mm_newindex", "mm_lt", "mm_unm", "mm_eq", "inline"}
+var bindKinds = []string{"localfunc", "localassign", "global", "globalstmt", "field", "fieldstmt", "method", "mm_index", "mm_add", "mm_call", "mm_concat", "mm_newindex", "mm_lt", "mm_unm", "mm_eq", "inline", "iter"}
 
 type chainPlan struct {
 	n     int    // functions on the chain
@@ -989,27 +989,29 @@ type chainPlan struct {
 
 // callee: how the caller reaches a chain function that has been defined.
 type callee struct {
-	mk    func(c2 *fctx) *Expr // the expression that enters it (placed once, by the caller c2)
-	res   func(c2 *fctx)       // resolves the names the expression mentions: call where it stands in the source
-	store bool                 // the expression is the left side of an assignment (__newindex)
-	tail  bool                 // entered by `return <expr>` (a tail call)
-	fn    *Func
+	mk       func(c2 *fctx) *Expr // the expression that enters it (placed once, by the caller c2)
+	res      func(c2 *fctx)       // resolves the names the expression mentions: call where it stands in the source
+	store    bool                 // the expression is the left side of an assignment (__newindex)
+	tail     bool                 // entered by `return <expr>` (a tail call)
+	iterName string               // entered as the iterator of a generic for over these arguments
+	iterArgs []*Expr
+	fn       *Func
 }
 
 // defineChain generates, in the current block of fx, the definition of chain function i
 // (and, before it in fx or nested in it, of the function it calls). nested: fx is the caller.
 func (g *gen) defineChain(fx *fctx, pl chainPlan, i int, underPcall, nested bool, tailOf *fctx) (defs []*Stmt, ce callee) {
-	kind := bindKinds[g.r.Pick(20, 12, 6, 6, 8, 6, 10, 3, 3, 3, 2, 2, 2, 2, 2, 0)]
+	kind := bindKinds[g.r.Pick(20, 12, 6, 6, 8, 6, 10, 3, 3, 3, 2, 2, 2, 2, 2, 0, 8)]
 	isMM := len(kind) > 3 && kind[:3] == "mm_"
 	if underPcall {
-		if isMM || kind == "method" {
+		if isMM || kind == "method" || kind == "iter" {
 			kind, isMM = "localfunc", false
 		}
 		if g.r.Chance(25) {
 			kind = "inline"
 		}
 	}
-	if tailOf != nil && (isMM || kind == "inline") { // `return f(...)`: a plain call
+	if tailOf != nil && (isMM || kind == "inline" || kind == "iter") { // `return f(...)`: a plain call
 		kind, isMM = "localfunc", false
 	}
 	f := &Func{ID: g.fn()}
@@ -1035,6 +1037,8 @@ func (g *gen) defineChain(fx *fctx, pl chainPlan, i int, underPcall, nested bool
 		np = 1
 	case "mm_call":
 		np = 1 + g.r.Intn(2)
+	case "iter": // called by the generic for with (state, control)
+		np = 2
 	}
 	if kind == "method" {
 		f.Method = true
@@ -1051,7 +1055,7 @@ func (g *gen) defineChain(fx *fctx, pl chainPlan, i int, underPcall, nested bool
 		f.Params = append(f.Params, b)
 		cx.declare(b)
 	}
-	if !isMM && g.r.Chance(20) {
+	if !isMM && kind != "iter" && g.r.Chance(20) {
 		f.Vararg = true
 		cx.declare(Binding{"arg", nil})
 		for k := g.r.Intn(3); k > 0; k-- {
@@ -1150,6 +1154,16 @@ func (g *gen) defineChain(fx *fctx, pl chainPlan, i int, underPcall, nested bool
 			fx.declare(Binding{nm, nil})
 		}
 		ce.res = func(c2 *fctx) { c2.resolve(nm) }
+	case "iter":
+		// the function is the iterator of `for k in f, s, c do ... break end`: the loop instruction
+		// calls it with the hidden variables in scope and the declared ones not
+		nm := g.fresh("f")
+		enter(&Expr{K: "itersite"})
+		fx.declare(Binding{nm, nil})
+		bodyGen()
+		defs = append(defs, &Stmt{K: "localfunc", Names: []string{nm}, Fn: f})
+		ce.res = func(c2 *fctx) { c2.resolve(nm) }
+		ce.iterName, ce.iterArgs = nm, args
 	case "global", "globalstmt":
 		nm := g.fresh("GF")
 		enter(call(name(nm), args...))
@@ -1227,7 +1241,28 @@ func (g *gen) chainAction(fx *fctx, a action, depth int) []*Stmt {
 		}
 	}
 	var out []*Stmt
-	if ce.tail {
+	if ce.iterName != "" {
+		g.placed()
+		g.size++
+		g.classes["iterator"] = true
+		st := &Stmt{K: "genfor", Names: []string{g.lname()}, IterSite: e, Exprs: append([]*Expr{name(ce.iterName)}, ce.iterArgs...)}
+		if g.r.Bool() {
+			st.Names = append(st.Names, g.lname())
+		}
+		fx.push()
+		for _, n := range []string{"(for generator)", "(for state)", "(for control)"} {
+			fx.declare(Binding{n, nil})
+		}
+		for _, n := range st.Names {
+			fx.declare(Binding{n, nil})
+		}
+		for i := g.r.Intn(2); i > 0; i-- {
+			st.Body = append(st.Body, g.filler(fx, depth+1))
+		}
+		fx.pop()
+		st.Body = append(st.Body, &Stmt{K: "break"})
+		out = []*Stmt{st}
+	} else if ce.tail {
 		g.placed()
 		g.size++
 		g.classes["tailcall"] = true
